@@ -428,6 +428,6 @@ theorem sign_pm (u : UInt64) : ((if u &&& 0x80 != 0 then (1 : ℝ) else -1) = 1 
 /-! ### Gamma with a zero boosting uniform
 
 Before repair F54 a boosting uniform equal to `0` made the draw exactly `0` (`gamma_zero_of_zero_uniform`, removed: the code
-now redraws, `C03.gamma_support_lt_one` proves `0 < x` for every returning call). -/
+now redraws, `C03.gamma_support_lt_one_partial` proves `0 < x` for every returning call). -/
 
 end Cv.C03Support
